@@ -790,7 +790,7 @@ pub fn run(cfg: &Cfg) -> Report {
     for fi in 0..FLAVOURS.len() { for len in 0..=MAX_ARR { for rep in 0..reps { exh.push((fi, len, rep)); } } }
     let n_exh = exh.len() as u64;
     let n_rand_choice: u64 = if thorough { 600_000 } else { 30_000 };
-    let n_coll: u64 = if thorough { 200_000 } else { 15_000 };
+    let n_coll: u64 = if thorough { 80_000 } else { 15_000 };
     let total = n_exh + n_rand_choice + n_coll;
     let mut rep = run_sharded(&cfg.driver, cfg.threads, total, || Report::new("gen", RULE), |d, r, i| {
         let mut g = SplitMix::derive(seed, i);
